@@ -137,13 +137,21 @@ def check(ctx):
                 guarded = need <= 1  # split() always returns at least one component
                 for test, pol in pcfg.guards(pcfg.node_of(sub)):
                     for cmp_ in ast.walk(test):
-                        if isinstance(cmp_, ast.Compare) and len(cmp_.ops) == 1 and isinstance(cmp_.left, ast.Call) and isinstance(cmp_.left.func, ast.Name) \
-                                and cmp_.left.func.id == "len" and cmp_.left.args and isinstance(cmp_.left.args[0], ast.Name) and cmp_.left.args[0].id == sub.value.id \
-                                and isinstance(cmp_.comparators[0], ast.Constant) and isinstance(cmp_.comparators[0].value, int) and pol:
-                            c0 = cmp_.comparators[0].value
-                            if (isinstance(cmp_.ops[0], ast.Gt) and c0 >= need - 1) or (isinstance(cmp_.ops[0], ast.GtE) and c0 >= need) \
-                                    or (isinstance(cmp_.ops[0], ast.Eq) and c0 >= need):
-                                guarded = True
+                        if not (isinstance(cmp_, ast.Compare) and len(cmp_.ops) == 1):
+                            continue
+                        lhs, op, rhs = cmp_.left, type(cmp_.ops[0]), cmp_.comparators[0]
+                        if isinstance(lhs, ast.Constant):  # `1 < len(x)` is `len(x) > 1`
+                            lhs, rhs = rhs, lhs
+                            op = {ast.Lt: ast.Gt, ast.LtE: ast.GtE, ast.Gt: ast.Lt, ast.GtE: ast.LtE}.get(op, op)
+                        is_len = isinstance(lhs, ast.Call) and isinstance(lhs.func, ast.Name) and lhs.func.id == "len" and lhs.args \
+                            and isinstance(lhs.args[0], ast.Name) and lhs.args[0].id == sub.value.id
+                        if not (is_len and isinstance(rhs, ast.Constant) and isinstance(rhs.value, int)):
+                            continue
+                        c0 = rhs.value
+                        holds = (op is ast.Gt and c0 >= need - 1) or (op is ast.GtE and c0 >= need) or (op is ast.Eq and c0 >= need)
+                        fails = (op is ast.Lt and c0 <= need) or (op is ast.LtE and c0 <= need - 1)  # `not (len < need)` on the false branch
+                        if (pol and holds) or (not pol and fails):
+                            guarded = True
                 ctx.ob("C11.R2.parse-total", util.key(pf, sub), guarded, pf.where(sub),
                        f"component {idx} of the split id is read only where the id is known to have it" if guarded
                        else f"component {idx} of the '_'-split id is read without a length guard: an unexpected unit whose id has fewer parts "
